@@ -24,8 +24,8 @@ MEDIAN_CFGS = [
     {"widths": [1], "modes": ["reflect"], "values": []},
     {"widths": [1, 1, 2, 1, 1, 2], "modes": ["constant", "edge", "constant", "constant", "edge", "constant"], "values": [1, 0, 0, 1, 0, 1]},
 ]
-MEDIAN_SHAPES_Q = [(3, 2, 1), (2, 2, 2), (1, 1, 3), (2, 1, 3)]
-MEDIAN_SHAPES_T = MEDIAN_SHAPES_Q + [(3, 3, 1), (1, 4, 1), (3, 2, 2), (2, 3, 2), (1, 3, 3), (3, 1, 3), (4, 1, 1), (1, 1, 1), (2, 2, 3)]
+MEDIAN_SHAPES_Q = [(3, 2, 1), (2, 2, 2), (1, 1, 3)]
+MEDIAN_SHAPES_T = MEDIAN_SHAPES_Q + [(2, 1, 3), (3, 3, 1), (1, 4, 1), (3, 2, 2), (2, 3, 2), (1, 3, 3), (3, 1, 3), (4, 1, 1), (1, 1, 1), (2, 2, 3)]
 MEDIAN_KERNELS_Q = [(3, 3, 1), (3, 3, 3), (1, 1, 3)]
 MEDIAN_KERNELS_T = [k for k in itertools.product((1, 3), repeat=3)] + [(5, 1, 1), (1, 5, 3), (3, 1, 5)]
 
@@ -78,8 +78,8 @@ def gen_median(ctx):
                 if not median_valid(cfg, sh, ks):
                     continue
                 arrays = list(itertools.product((0, 1), repeat=cells))
-                # quick: all arrays up to 6 voxels, 48 sampled ones for 8 voxels; thorough: all up to 9 voxels, 128 sampled beyond
-                cap = (64 if cells <= 6 else 48) if quick else (512 if cells <= 9 else 128)
+                # quick: all arrays up to 3 voxels, 32 sampled ones beyond; thorough: all up to 6 voxels, 64 sampled beyond
+                cap = 32 if quick else 64
                 if len(arrays) > cap:
                     arrays = rng.sample(arrays, cap)
                 for vals in arrays:
@@ -91,7 +91,7 @@ def gen_median(ctx):
         {"widths": [20], "modes": ["edge", "edge", "edge", "edge", "constant", "edge"], "values": [1]},
         {"widths": [10], "modes": ["constant"] * 6, "values": [1, 0, 1, 1, 1, 0]},
     ]
-    for k in range(120 if quick else 1500):
+    for k in range(40 if quick else 600):
         sh = [rng.choice([1, 2, 3, 4, 5]) for _ in range(3)]
         ks = [rng.choice([1, 3, 3, 5]) for _ in range(3)]
         if rng.random() < 0.3:
@@ -129,7 +129,7 @@ def gen_pillar(ctx):
                     for ax, sh in PILLAR_AXSHAPES_Q if quick else PILLAR_AXSHAPES_T:
                         cells = sh[0] * sh[1] * sh[2]
                         arrays = list(itertools.product(grid3 if cells <= 3 else grid4, repeat=cells))
-                        cap = 40 if quick else 400
+                        cap = 20 if quick else 40
                         if len(arrays) > cap:
                             arrays = rng.sample(arrays, cap)
                         for vals in arrays:
@@ -139,7 +139,7 @@ def gen_pillar(ctx):
     # seeded random: more columns, taller columns, non-dyadic inverse permittivities (1/3, 1/5), 1/64 input grid
     pool = [[1, 1], [2, 1], [4, 1], [8, 1], [3, 1], [5, 1], [3, 2], [16, 1]]
     den = 64 * 15
-    for k in range(150 if quick else 1500):
+    for k in range(40 if quick else 600):
         nm = rng.randint(2, 3) if quick else rng.randint(2, 4)
         eps = rng.sample(pool, nm)
         ax = rng.randint(1, 3)
@@ -158,6 +158,7 @@ def gen_cases(ctx):
 
 # ------------------------------------------------------------------------------------------------ observation
 _CFG = None
+_PILLARS = {}
 
 
 def _config():
@@ -184,10 +185,15 @@ def _enc(a):
 
 
 def observe(case):
+    import json
+
     import jax.numpy as jnp
     import numpy as np
     from fdtdx.materials import Material
 
+    from loguru import logger
+
+    logger.disable("fdtdx")  # PillarDiscretization.init_module logs the whole table of allowed columns
     shape = tuple(case["shape"])
     rec = dict(case)
     rec.update({"err": "", "oshape": [], "out": [], "dev": 0})
@@ -206,11 +212,16 @@ def observe(case):
         else:
             from fdtdx.objects.device.parameters.discretization import PillarDiscretization
 
-            mats = {f"mat{i}": Material(permittivity=num / d) for i, (num, d) in enumerate(case["eps"])}
-            t = PillarDiscretization(axis=case["axis"] - 1, single_polymer_columns=case["single"], distance_metric=case["metric"],
-                                     background_material=None if case["bg"] == 0 else f"mat{case['bg'] - 1}")
-            t = t.init_module(config=_config(), materials=mats, matrix_voxel_grid_shape=shape, single_voxel_size=(1.0, 1.0, 1.0),
-                              output_shape={"params": shape})
+            # the initialised module (real init_module: compute_allowed_indices) is reused for equal configurations
+            key = json.dumps([case["eps"], case["bg"], case["single"], case["metric"], case["axis"], case["shape"]])
+            t = _PILLARS.get(key)
+            if t is None:
+                mats = {f"mat{i}": Material(permittivity=num / d) for i, (num, d) in enumerate(case["eps"])}
+                t = PillarDiscretization(axis=case["axis"] - 1, single_polymer_columns=case["single"], distance_metric=case["metric"],
+                                         background_material=None if case["bg"] == 0 else f"mat{case['bg'] - 1}")
+                t = t.init_module(config=_config(), materials=mats, matrix_voxel_grid_shape=shape, single_voxel_size=(1.0, 1.0, 1.0),
+                                  output_shape={"params": shape})
+                _PILLARS[key] = t
             x = jnp.asarray(np.asarray(case["inp"], dtype=np.float64).reshape(shape) / case["den"])
         y = t({"params": x})["params"]
         rec["oshape"] = [int(s) for s in y.shape]
